@@ -160,7 +160,13 @@ Proof.
   - destruct (f_len c) as [w|] eqn:El; [|discriminate H].
     destruct v as [s|z|b|d]; try discriminate.
     cbn [bind] in H. apply iw_str_case. exact H.
-  - discriminate H.
+  - destruct (f_len c) as [[|w]|] eqn:El; try discriminate H.
+    + destruct v as [s|z|b|d]; try discriminate H.
+      destruct (CU.model.Dec.dec_parse s) as [dd| |]; discriminate H.
+    + destruct v as [s|z|b|d]; try discriminate H.
+      * destruct (CU.model.Dec.dec_parse s) as [dd| |]; try discriminate H.
+        cbn [bind] in H. apply iw_str_case. exact H.
+      * cbn [bind] in H. apply iw_str_case. exact H.
   - destruct v as [s|z|b|d]; try discriminate.
     destruct (strftime_m (f_datefmt c) d) as [t| | |]; cbn [bind] in H; try discriminate H.
     apply iw_str_case. exact H.
@@ -190,7 +196,7 @@ Proof.
   - destruct (f_len c) as [w|]; [|discriminate H].
     destruct v as [s|z|b|d]; try (split; [exact H|reflexivity]).
     destruct (py_int s) as [z|]; [|discriminate H]. split; [exact H|reflexivity].
-  - discriminate H.
+  - split; [exact H|]. destruct v; reflexivity.
   - destruct v as [s|z|b|d]; try (split; [exact H|reflexivity]).
     destruct (parse_iso s) as [d|]; [|discriminate H]. split; [exact H|reflexivity].
 Qed.
